@@ -86,6 +86,9 @@ class WS:
         self.rows = [[Cell(self, r, c, v) for c, v in enumerate(row)] for r, row in enumerate(grid)]
 
     def iter_rows(self):
+        # (the rows come as tuples, as openpyxl gives them, or as lists - by the name of the sheet)
+        if self.title in ("sh 1", "glossary", "blank"):
+            return iter([tuple(r) for r in self.rows])
         return iter(self.rows)
 
 
@@ -697,6 +700,30 @@ def other_routes(ctx, spec, ws, obj_cls, rules, objs, problems):
         problems.append(("entry-points-disagree", {"route": route, "got": len(got), "read_table": len(objs)}))
 
 
+def blank_sheet_case(ctx, rng):
+    """a worksheet without a single row, or with blank rows only: there is no table in it - and no object"""
+    ctx.evaluated()
+    width = rng.randint(1, 4)
+    grid = [[rng.choice([None, None, "", " "]) if rng.random() < 0.5 else None for _ in range(width)]
+            for _ in range(rng.choice([0, 0, 1, 3]))]
+    rules = make_rules({'range_kind': 'none', 'tags_kind': 'list'})
+    case = {"blank_sheet": grid}
+    kw = dict(stop_on=rng.choice(["blank all", "blank first"]), ladder_format=rng.random() < 0.5)
+    for route in ("read_table", "iter_table", "map"):
+        try:
+            ws = WS("blank" if len(grid) % 2 else "other blank", grid)
+            got = (X.read_table(ws, Obj, rules, **kw) if route == "read_table" else
+                   list(X.iter_table(ws, Obj, rules, **kw)) if route == "iter_table" else
+                   X.read_table_make_map(ws, Obj, rules, **kw))
+        except Exception as err:
+            ctx.violation("reading-raises", {"route": route, "type": type(err).__name__, "msg": str(err)[:200]}, case)
+            return
+        ctx.count("blank_sheets_read")
+        if len(got) != 0:
+            ctx.violation("object-count-or-order-differs-from-end-of-table-rule", {"got": len(got), "expected": 0}, case)
+            return
+
+
 class Term(X.XlsObject):
     _ATTRS = ['word', 'meaning', 'kind', 'extra', 'note']
     _NUM_ID_ATTRS = 1
@@ -767,6 +794,8 @@ def run_shard(ctx):
     for i in range(ctx.cases):
         if i % 8 == 5:
             glossary_case(ctx, ctx.rng(i))
+        if i % 16 == 9:
+            blank_sheet_case(ctx, ctx.rng(i))
         spec = gen_sheet(ctx.rng(i))
         judge(ctx, spec, {"rng_key": ctx.rng_key(i)})
         if i < 2:
@@ -775,6 +804,10 @@ def run_shard(ctx):
 
 
 def replay(ctx, case):
+    if "blank_sheet" in case:
+        for k in range(100):
+            blank_sheet_case(ctx, random.Random(k))
+        return
     if "glossary" in case:
         for k in range(400):        # (the family is small: it is simply run again)
             glossary_case(ctx, random.Random(k))
